@@ -16,8 +16,11 @@ def main(tier):
     # the dump pipeline re-adds its built-in helper templates only where the wiki has none (a re-added page loses its
     # mark and its redirect): the C12 contract of add_default_templates, checked here as well
     reg2 = vx.Registry()
-    c12.setup_registry(reg2)
+    c12.pipeline_registry(reg2)
     adt = [c for c in c12.contracts() if c.target == "dumpparser:add_default_templates"]
+    # ... and runs the analysis after override files that contain templates have been written, at most once, with
+    # the caller's classifier (analyze_and_overwrite_pages)
+    adt.append(c12.analysis_pipeline_contract())
     for c in adt:
         c.prop = "C17"
         reg2.add(c)
@@ -39,7 +42,11 @@ def main(tier):
         "non-negative and strictly decreases in every iteration (the inner loop carries `measure < variant_at_head`); "
         "|unmarked templates| is an uninterpreted function of the marked set with the cardinality axioms of a finite "
         "table instantiated at each set_template_pre_expand. The two `for` loops iterate finite collections "
-        "(assumed). The two redirect UPDATE statements are NOT proved (SQL is external): bounded tier only. "
+        "(assumed). Dump pipeline around it (ghost call log): add_default_templates re-adds a built-in helper template only "
+        "after an existence check on (title, template namespace id); analyze_and_overwrite_pages writes override files that "
+        "contain templates before it analyses, analyses at most once and with the caller's classifier, and skips the "
+        "analysis only when the table has been analysed and no template was overridden. "
+        "The two redirect UPDATE statements are NOT proved (SQL is external): bounded tier only. "
         "B: real analyze_templates on real SQLite, see bounded_tier.")
     rep.assumptions += [
         "abstract (SQL-level) contracts: get_all_pages([template ns]) yields every template page once; "
@@ -50,7 +57,7 @@ def main(tier):
         "the pages table is finite: CARD_UNMARKED(M) >= 0, and marking an unmarked template page decreases it by one "
         "(axioms instantiated at set_template_pre_expand); get_all_pages and the classifier's name sets are finite",
     ]
-    return rep.finish(replayer=replay, expected_min_functions=2)
+    return rep.finish(replayer=replay, expected_min_functions=3)
 
 
 def replay(ob):
